@@ -2,6 +2,8 @@ import Knut.Generated.TransPrice
 import Knut.Generated.TransCompare
 import Knut.Generated.TransCommodity
 import Knut.Model.Prices
+import Knut.Proofs.Prices
+import Knut.Proofs.PricesSpec
 /-!
 # The translated `lib/model/price` agrees with the hand-written model
 
@@ -134,5 +136,322 @@ example : price.Prices.Insert [] ⟨"CHF", false⟩ 4 ⟨"USD", false⟩ =
   decide +kernel
 example : (price.Prices.Insert [] ⟨"CHF", false⟩ 0 ⟨"USD", false⟩) =
     GoSem.Outcome.ok ([], some ⟨"invalid price %s for commodity %s in %s"⟩) := by decide +kernel
+
+/-! ## `Prices.normalize` / `Prices.Normalize` (breadth-first search over sorted neighbours)
+
+The `for len(queue) > 0` loop has no comparison a bound could be derived from (the loop also appends to the queue): the translated
+function takes its fuel as an explicit parameter, and the theorem says that `unvisited + |queue|` — the model's termination measure —
+suffices.  Map equivalence is strengthened by the key sets (`NPEquivS`, `PEquivS`): `dict.SortedKeys` sorts the keys of the Go map, the
+model sorts the keys of its association list. -/
+
+/-- lookups agree, the Go keys are the model keys (up to order), the model keys do not repeat -/
+structure NPEquivS (cur : String → Bool) (g : price.NormalizedPrices) (m : Prices.NPrices) : Prop where
+  lookup : NPEquiv cur g m
+  keys : (g.map Prod.fst).Perm ((Prices.keys m).map (cGo cur))
+  nodup : (Prices.keys m).Nodup
+
+def PEquivS (cur : String → Bool) (g : price.Prices) (m : Prices.Prices) : Prop :=
+  ∀ a : Knut.Commodity,
+    match Knut.AMap.find? g (cGo cur a), Prices.find a m with
+    | some gi, some mi => NPEquivS cur gi mi
+    | none, none => True
+    | _, _ => False
+
+theorem PEquivS.toPEquiv {cur : String → Bool} {g : price.Prices} {m : Prices.Prices} (h : PEquivS cur g m) : PEquiv cur g m := by
+  intro a
+  have := h a
+  cases hg : Knut.AMap.find? g (cGo cur a) <;> cases hm : Prices.find a m <;> simp [hg, hm] at this ⊢
+  exact this.lookup
+
+theorem keys_amap_set {κ ν : Type} [DecidableEq κ] (m : Knut.AMap κ ν) (k : κ) (v : ν) :
+    (Knut.AMap.set m k v).map Prod.fst = if (Knut.AMap.find? m k).isSome then m.map Prod.fst else m.map Prod.fst ++ [k] := by
+  induction m with
+  | nil => simp [Knut.AMap.set]
+  | cons e rest ih =>
+    obtain ⟨a, b⟩ := e
+    by_cases hak : a = k
+    · subst hak; simp [Knut.AMap.set, Knut.AMap.find?]
+    · simp only [Knut.AMap.set, hak, if_false, List.map_cons, Knut.AMap.find?, ih]
+      split <;> simp
+
+theorem keys_del (m : Prices.AMap β) (k : Commodity) : Prices.keys (Prices.del k m) = (Prices.keys m).filter (fun x => x != k) := by
+  induction m with
+  | nil => rfl
+  | cons e rest ih =>
+    obtain ⟨a, b⟩ := e
+    by_cases hak : a = k
+    · subst hak; simp [Prices.del, Prices.keys] at ih ⊢; exact ih
+    · simp [Prices.del, Prices.keys, hak] at ih ⊢; exact ih
+
+theorem keys_set_perm (m : Prices.AMap β) (k : Commodity) (v : β) (hn : (Prices.keys m).Nodup) :
+    (Prices.keys (Prices.set m k v)).Perm (if (Prices.find k m).isSome then Prices.keys m else Prices.keys m ++ [k]) ∧
+    (Prices.keys (Prices.set m k v)).Nodup := by
+  have hk : Prices.keys (Prices.set m k v) = k :: (Prices.keys m).filter (fun x => x != k) := by
+    show Prices.keys ((k, v) :: Prices.del k m) = _
+    simp only [Prices.keys, List.map_cons]
+    have := keys_del m k
+    simp only [Prices.keys] at this
+    rw [this]
+  rw [hk]
+  constructor
+  · by_cases hs : (Prices.find k m).isSome = true
+    · simp only [hs, if_true]
+      have hmem : k ∈ Prices.keys m := (Prices.isSome_iff_mem_keys m k).mp hs
+      rw [← List.Nodup.erase_eq_filter hn k]
+      exact (List.perm_cons_erase hmem).symm
+    · simp only [hs, Bool.false_eq_true, if_false]
+      have hmem : k ∉ Prices.keys m := fun x => hs ((Prices.isSome_iff_mem_keys m k).mpr x)
+      have : (Prices.keys m).filter (fun x => x != k) = Prices.keys m := by
+        apply List.filter_eq_self.mpr
+        intro a ha; simp; intro e; subst e; exact hmem ha
+      rw [this]
+      exact (List.perm_append_singleton k (Prices.keys m)).symm
+  · refine List.nodup_cons.mpr ⟨by simp, hn.filter _⟩
+
+theorem NPEquivS_nil (cur : String → Bool) : NPEquivS cur [] [] :=
+  ⟨NPEquiv_nil cur, by simp [Prices.keys], by simp [Prices.keys]⟩
+
+theorem NPEquivS_set (cur : String → Bool) {g : price.NormalizedPrices} {m : Prices.NPrices} (h : NPEquivS cur g m)
+    (c : Knut.Commodity) (v : Rat) : NPEquivS cur (Knut.AMap.set g (cGo cur c) v) (Prices.set m c v) := by
+  obtain ⟨hp, hnd⟩ := keys_set_perm m c v h.nodup
+  refine ⟨NPEquiv_set cur h.lookup c v, ?_, hnd⟩
+  rw [keys_amap_set, h.lookup c]
+  by_cases hs : (Prices.find c m).isSome = true
+  · simp only [hs, if_true] at hp ⊢
+    exact h.keys.trans (hp.map _).symm
+  · simp only [hs, Bool.false_eq_true, if_false] at hp ⊢
+    refine List.Perm.trans ?_ (hp.map _).symm
+    simp only [List.map_append, List.map_cons, List.map_nil]
+    exact List.Perm.append_right _ h.keys
+
+theorem addPrice_agreesS (cur : String → Bool) {g : price.Prices} {m : Prices.Prices} (h : PEquivS cur g m)
+    (t c : Knut.Commodity) (p : Rat) :
+    PEquivS cur (price.Prices.addPrice g (cGo cur t) (cGo cur c) p) (Prices.addPrice m t c p) := by
+  intro a
+  unfold price.Prices.addPrice Prices.addPrice
+  simp only [Knut.AMap.find?_set]
+  by_cases ha : t = a
+  · subst ha
+    simp only [if_true, Prices.find_set_self]
+    apply NPEquivS_set
+    have := h t
+    unfold getDefault price.newNormalizedPrices
+    cases hg : Knut.AMap.find? g (cGo cur t) <;> cases hm : Prices.find t m <;> simp [hg, hm] at this ⊢
+    · exact NPEquivS_nil cur
+    · exact this
+  · have : cGo cur t ≠ cGo cur a := fun e => ha (cGo_inj cur e)
+    rw [if_neg this, Prices.find_set_ne _ _ _ _ (fun e => ha e.symm)]
+    exact h a
+
+/-- `Prices.Insert` keeps the strengthened equivalence: every price map built by `Insert` calls from the empty map satisfies it -/
+theorem Insert_agreesS (cur : String → Bool) {g : price.Prices} {m : Prices.Prices} (h : PEquivS cur g m) (d : Prices.Decl) :
+    match price.Prices.Insert g (cGo cur d.commodity) d.price (cGo cur d.target), Prices.insert m d with
+    | GoSem.Outcome.ok (g', none), some m' => PEquivS cur g' m'
+    | GoSem.Outcome.ok (g', some _), none => g' = g
+    | _, _ => False := by
+  unfold price.Prices.Insert Prices.insert
+  by_cases hz : d.price = 0
+  · simp [hz]
+  · simp only [Decimal.IsZero, hz, decide_false, Bool.false_eq_true, if_false, Decimal.Div, price.one, Decimal.NewFromInt,
+      GoSem.Outcome.bind]
+    have h1 := addPrice_agreesS cur h d.target d.commodity d.price
+    have h2 := addPrice_agreesS cur h1 d.commodity d.target (Prices.recip d.price)
+    have e : Decimal.Truncate (Dec.div16 ((1 : Int) : Rat) d.price) 8 = Prices.recip d.price := by
+      simp [Prices.recip, Prices.insertPlaces]
+    rw [e]
+    exact h2
+
+theorem PEquivS_nil (cur : String → Bool) : PEquivS cur [] [] := by intro a; simp [Prices.find]
+
+theorem Compare_le (a b : commodity.Commodity) : decide (commodity.Compare a b ≠ 1) = decide (a.name ≤ b.name) := by
+  unfold commodity.Compare commodity.Commodity.Name cmpOrdered
+  by_cases h1 : a.name < b.name
+  · have : a.name ≤ b.name := String.not_lt.mp (String.lt_asymm h1)
+    simp [h1, this]
+  · by_cases h2 : b.name < a.name
+    · have : ¬ a.name ≤ b.name := fun x => (String.not_lt.mpr x) h2
+      simp [h1, h2, this]
+    · have : a.name ≤ b.name := String.not_lt.mp h2
+      simp [h1, h2, this]
+
+/-- `dict.SortedKeys(ps[c], commodity.Compare)` is the model's `sortNames (keys …)` -/
+theorem sortedKeys_agrees (cur : String → Bool) {gi : price.NormalizedPrices} {mi : Prices.NPrices} (h : NPEquivS cur gi mi) :
+    sortedKeys gi commodity.Compare = (Prices.sortNames (Prices.keys mi)).map (cGo cur) := by
+  unfold sortedKeys
+  have hle : (fun a b : commodity.Commodity => decide (commodity.Compare a b ≠ 1)) = (fun a b => decide (a.name ≤ b.name)) := by
+    funext a b; exact Compare_le a b
+  rw [hle]
+  have htrans : ∀ a b c : commodity.Commodity, decide (a.name ≤ b.name) = true → decide (b.name ≤ c.name) = true →
+      decide (a.name ≤ c.name) = true := by
+    intro a b c h1 h2
+    simp only [decide_eq_true_eq] at h1 h2 ⊢
+    exact String.le_trans h1 h2
+  have htotal : ∀ a b : commodity.Commodity, (decide (a.name ≤ b.name) || decide (b.name ≤ a.name)) = true := by
+    intro a b
+    simp only [Bool.or_eq_true, decide_eq_true_eq]
+    exact String.le_total _ _
+  have htrans' : ∀ a b c : Commodity, decide (a ≤ b) = true → decide (b ≤ c) = true → decide (a ≤ c) = true := by
+    intro a b c h1 h2
+    simp only [decide_eq_true_eq] at h1 h2 ⊢
+    exact String.le_trans h1 h2
+  have htotal' : ∀ a b : Commodity, (decide (a ≤ b) || decide (b ≤ a)) = true := by
+    intro a b
+    simp only [Bool.or_eq_true, decide_eq_true_eq]
+    exact String.le_total a b
+  have hperm : ((gi.map Prod.fst).mergeSort (fun a b => decide (a.name ≤ b.name))).Perm
+      ((Prices.sortNames (Prices.keys mi)).map (cGo cur)) :=
+    ((List.mergeSort_perm _ _).trans h.keys).trans ((Prices.sortNames_perm _).map _).symm
+  apply List.Perm.eq_of_pairwise (le := fun a b : commodity.Commodity => decide (a.name ≤ b.name) = true) _ _ _ hperm
+  · intro a b ha hb h1 h2
+    have ha' : a ∈ (Prices.sortNames (Prices.keys mi)).map (cGo cur) := hperm.mem_iff.mp ha
+    obtain ⟨x, _, rfl⟩ := List.mem_map.mp ha'
+    obtain ⟨y, _, rfl⟩ := List.mem_map.mp hb
+    have : x = y := String.le_antisymm (of_decide_eq_true h1) (of_decide_eq_true h2)
+    rw [this]
+  · exact List.pairwise_mergeSort htrans htotal _
+  · rw [List.pairwise_map]
+    exact List.pairwise_mergeSort htrans' htotal' _
+
+/-- body of the inner `range` loop of `normalize` as the translator writes it (state: `res`, `queue`) -/
+def gvisit (ps : price.Prices) (c : commodity.Commodity) (st : price.NormalizedPrices × List commodity.Commodity)
+    (el : commodity.Commodity) : price.NormalizedPrices × List commodity.Commodity :=
+  let res : price.NormalizedPrices := st.1
+  let queue : (List commodity.Commodity) := st.2
+  let neighbor : commodity.Commodity := el
+  let done : Bool := (Option.isSome (Knut.AMap.find? res neighbor))
+  if done then
+    (res, queue)
+  else
+    let res : price.NormalizedPrices := (Knut.AMap.set res neighbor (price.Multiply (Knut.AMap.get (Knut.AMap.get ps c (GoZero.zero : price.NormalizedPrices)) neighbor (GoZero.zero : Rat)) (Knut.AMap.get res c (GoZero.zero : Rat))))
+    let queue : (List commodity.Commodity) := (queue ++ [neighbor])
+    (res, queue)
+
+theorem gvisit_agrees (cur : String → Bool) {g : price.Prices} {m : Prices.Prices} (h : PEquiv cur g m) (c n : Knut.Commodity)
+    (gres : price.NormalizedPrices) (mres : Prices.NPrices) (q : List Knut.Commodity) (hr : NPEquiv cur gres mres) :
+    (gvisit g (cGo cur c) (gres, q.map (cGo cur)) (cGo cur n)).2 = (Prices.visit m c (q, mres) n).1.map (cGo cur) ∧
+    NPEquiv cur (gvisit g (cGo cur c) (gres, q.map (cGo cur)) (cGo cur n)).1 (Prices.visit m c (q, mres) n).2 := by
+  unfold gvisit Prices.visit
+  simp only [hr n]
+  by_cases hd : (Prices.find n mres).isSome = true
+  · simp [hd, hr]
+  · simp only [hd, Bool.false_eq_true, if_false]
+    refine ⟨by simp, ?_⟩
+    have hp : Knut.AMap.get (Knut.AMap.get g (cGo cur c) (GoZero.zero : price.NormalizedPrices)) (cGo cur n) (GoZero.zero : Rat)
+        = Prices.price m c n := by
+      have := h c
+      unfold Prices.price Prices.edge Knut.AMap.get
+      cases hg : Knut.AMap.find? g (cGo cur c) <;> cases hm : Prices.find c m <;> simp [hg, hm] at this ⊢
+      rw [this n]
+    have hc : Knut.AMap.get gres (cGo cur c) (GoZero.zero : Rat) = (Prices.find c mres).getD 0 := by
+      unfold Knut.AMap.get; rw [hr c]; rfl
+    rw [hp, hc, Multiply_agrees]
+    exact NPEquiv_set cur hr n _
+
+theorem gvisitAll_agrees (cur : String → Bool) {g : price.Prices} {m : Prices.Prices} (h : PEquiv cur g m) (c : Knut.Commodity) :
+    ∀ (ns : List Knut.Commodity) (gres : price.NormalizedPrices) (mres : Prices.NPrices) (q : List Knut.Commodity),
+      NPEquiv cur gres mres →
+      (List.foldl (gvisit g (cGo cur c)) (gres, q.map (cGo cur)) (ns.map (cGo cur))).2
+        = (ns.foldl (Prices.visit m c) (q, mres)).1.map (cGo cur) ∧
+      NPEquiv cur (List.foldl (gvisit g (cGo cur c)) (gres, q.map (cGo cur)) (ns.map (cGo cur))).1
+        (ns.foldl (Prices.visit m c) (q, mres)).2 := by
+  intro ns
+  induction ns with
+  | nil => intro gres mres q hr; exact ⟨rfl, hr⟩
+  | cons n rest ih =>
+    intro gres mres q hr
+    simp only [List.map_cons, List.foldl_cons]
+    obtain ⟨h1, h2⟩ := gvisit_agrees cur h c n gres mres q hr
+    have e : gvisit g (cGo cur c) (gres, q.map (cGo cur)) (cGo cur n)
+        = ((gvisit g (cGo cur c) (gres, q.map (cGo cur)) (cGo cur n)).1, (Prices.visit m c (q, mres) n).1.map (cGo cur)) := by
+      rw [← h1]
+    rw [e]
+    have := ih _ (Prices.visit m c (q, mres) n).2 (Prices.visit m c (q, mres) n).1 h2
+    simpa using this
+
+/-- the `for len(queue) > 0` loop of `normalize`: with fuel ≥ `unvisited + |queue|` it ends (never `outOfFuel`, never an index
+panic) in a map equivalent to the model's `normLoop` -/
+theorem normalize_loop_agrees (cur : String → Bool) {g : price.Prices} {m : Prices.Prices} (h : PEquivS cur g m) :
+    ∀ (fuel : Nat) (q : List Knut.Commodity) (c0 : commodity.Commodity) (gres : price.NormalizedPrices) (mres : Prices.NPrices),
+      NPEquiv cur gres mres → Prices.unvisited m mres + q.length ≤ fuel →
+      ∃ c' gres' q', price.Prices.normalize.loop1 g fuel c0 gres (q.map (cGo cur)) = GoSem.Outcome.ok (c', gres', q') ∧
+        NPEquiv cur gres' (Prices.normLoop m q mres) := by
+  intro fuel
+  induction fuel with
+  | zero =>
+    intro q c0 gres mres hr hf
+    have : q = [] := by cases q with | nil => rfl | cons a b => simp at hf
+    subst this
+    exact ⟨c0, gres, [], by simp [price.Prices.normalize.loop1], by simpa [Prices.normLoop_nil] using hr⟩
+  | succ n ih =>
+    intro q c0 gres mres hr hf
+    cases q with
+    | nil => exact ⟨c0, gres, [], by simp [price.Prices.normalize.loop1], by simpa [Prices.normLoop_nil] using hr⟩
+    | cons c rest =>
+      unfold price.Prices.normalize.loop1
+      have hpos : ((((c :: rest).map (cGo cur)).length : Nat) : Int) > 0 := by simp <;> omega
+      simp only [len, hpos, decide_true, if_true]
+      have hi : index ((c :: rest).map (cGo cur)) 0 = GoSem.Outcome.ok (cGo cur c) := by
+        simp [index]
+      have hs : slice ((c :: rest).map (cGo cur)) 1 ((((c :: rest).map (cGo cur)).length : Nat) : Int) = GoSem.Outcome.ok (rest.map (cGo cur)) := by
+        unfold slice
+        have : ¬ ((1 : Int) < 0 ∨ ((((c :: rest).map (cGo cur)).length : Nat) : Int) < 1 ∨
+            ((((c :: rest).map (cGo cur)).length : Nat) : Int) < ((((c :: rest).map (cGo cur)).length : Nat) : Int)) := by
+          simp <;> omega
+        simp only [this, if_false]
+        simp
+        rw [List.take_of_length_le (by simp)]
+      rw [hi, hs]
+      simp only [GoSem.Outcome.bind]
+      -- the sorted neighbours
+      have hsk : sortedKeys (Knut.AMap.get g (cGo cur c) (GoZero.zero : price.NormalizedPrices)) commodity.Compare
+          = (Prices.neighbors m c).map (cGo cur) := by
+        have := h c
+        unfold Prices.neighbors Knut.AMap.get
+        cases hg : Knut.AMap.find? g (cGo cur c) <;> cases hm : Prices.find c m <;> simp [hg, hm] at this ⊢
+        · simp [sortedKeys, Prices.sortNames, Prices.keys]
+        · exact sortedKeys_agrees cur this
+      rw [hsk]
+      obtain ⟨h1, h2⟩ := gvisitAll_agrees cur h.toPEquiv c (Prices.neighbors m c) gres mres rest hr
+      have hfold : ∀ (init : price.NormalizedPrices × List commodity.Commodity) (l : List commodity.Commodity),
+          List.foldl (fun (st5 : price.NormalizedPrices × List commodity.Commodity) (el6 : commodity.Commodity) =>
+            let res : price.NormalizedPrices := st5.1
+            let queue : (List commodity.Commodity) := st5.2
+            let neighbor : commodity.Commodity := el6
+            let done : Bool := (Option.isSome (Knut.AMap.find? res neighbor))
+            if done then
+              (res, queue)
+            else
+              let res : price.NormalizedPrices := (Knut.AMap.set res neighbor (price.Multiply (Knut.AMap.get (Knut.AMap.get g (cGo cur c) (GoZero.zero : price.NormalizedPrices)) neighbor (GoZero.zero : Rat)) (Knut.AMap.get res (cGo cur c) (GoZero.zero : Rat))))
+              let queue : (List commodity.Commodity) := (queue ++ [neighbor])
+              (res, queue)) init l = List.foldl (gvisit g (cGo cur c)) init l := fun _ _ => rfl
+      rw [hfold]
+      have hm := Prices.visitAll_measure m c (Prices.neighbors m c) (rest, mres) (Prices.neighbors_sub_universe m c)
+      simp only [List.length_cons] at hf hm
+      obtain ⟨c', gres', q', e1, e2⟩ := ih ((Prices.neighbors m c).foldl (Prices.visit m c) (rest, mres)).1 (cGo cur c)
+        (List.foldl (gvisit g (cGo cur c)) (gres, rest.map (cGo cur)) ((Prices.neighbors m c).map (cGo cur))).1
+        ((Prices.neighbors m c).foldl (Prices.visit m c) (rest, mres)).2 h2 (by omega)
+      refine ⟨c', gres', q', ?_, ?_⟩
+      · rw [← e1, h1]
+      · rw [Prices.normLoop_cons]; exact e2
+
+/-- `Prices.Normalize(t)`: for every fuel ≥ `unvisited + 1` the translated function returns a map whose every lookup is the
+model's `normalize` (the BFS over sorted neighbours) -/
+theorem Normalize_agrees (cur : String → Bool) {g : price.Prices} {m : Prices.Prices} (h : PEquivS cur g m) (t : Knut.Commodity)
+    (fuel : Nat) (hf : Prices.unvisited m [(t, 1)] + 1 ≤ fuel) :
+    ∃ gres, price.Prices.Normalize g (cGo cur t) fuel = GoSem.Outcome.ok gres ∧ NPEquiv cur gres (Prices.normalize m t) := by
+  unfold price.Prices.Normalize price.Prices.normalize Prices.normalize
+  have hr : NPEquiv cur (Knut.AMap.set ([] : price.NormalizedPrices) (cGo cur t) price.one) [(t, 1)] := by
+    have := NPEquiv_set cur (NPEquiv_nil cur) t 1
+    simpa [Prices.set, Prices.del, price.one] using this
+  obtain ⟨c', gres', q', e1, e2⟩ := normalize_loop_agrees cur h fuel [t] (cGo cur t) _ _ hr (by simpa using hf)
+  refine ⟨gres', ?_, e2⟩
+  simp only [List.map_cons, List.map_nil] at e1
+  simp [e1, GoSem.Outcome.bind]
+
+/-- non-vacuity: the hypotheses of `Normalize_agrees` are satisfiable (the empty price map, fuel 1), and `PEquivS` is what `Insert`
+maintains from the empty map (`PEquivS_nil`, `Insert_agreesS`) -/
+example (cur : String → Bool) : ∃ gres, price.Prices.Normalize [] (cGo cur "CHF") 1 = GoSem.Outcome.ok gres ∧
+    NPEquiv cur gres (Prices.normalize [] "CHF") :=
+  Normalize_agrees cur (PEquivS_nil cur) "CHF" 1 (by simp [Prices.unvisited, Prices.allNames])
 
 end Knut.FactsAgree.TransPrice
